@@ -290,14 +290,14 @@ class Contract:
     def __init__(self, target, args=None, requires=(), ensures=None, raises=(), modifies=(), returns=None, pure=False,
                  inline=False, invariants=None, trusted=False, prop=None, setup=None, ghost=None, varargs=None,
                  raises_ensures=None, note="", abstract_only=False, result_name=None, unroll=None, kind="function",
-                 concretize=None, native_setup=None, max_paths=None, bounded_note=None, effects=None, yield_effect=None, call_ensures=None, replay_real=False):
+                 concretize=None, native_setup=None, max_paths=None, bounded_note=None, effects=None, yield_effect=None, call_ensures=None, replay_real=False, replayable=True):
         self.target = target
         self.args = args or {}
         self.requires = list(requires)
         self.ensures = dict(ensures or {})
         self.raises = list(raises)  # exception class names that may escape (others => obligation failure)
         self.raises_ensures = dict(raises_ensures or {})  # clauses that must hold when an exception escapes
-        self.modifies = list(modifies)  # "self.field" paths the callee may change (abstract call havoc)
+        self.modifies = dict(modifies) if isinstance(modifies, dict) else {}  # path -> descriptor: what the callee may change (havoc at call sites)
         self.returns = returns  # descriptor of the result for abstract calls
         self.pure = pure  # abstract call result is an uninterpreted function of the (scalar) arguments
         self.inline = inline
@@ -315,6 +315,7 @@ class Contract:
         self.max_paths = max_paths
         self.bounded_note = bounded_note
         self.call_ensures = call_ensures  # clauses assumed at call sites instead of `ensures` (an abstraction of them; listed as assumed)
+        self.replayable = replayable  # False: the function cannot be driven natively in isolation (threads, live engine); refutations are reported without input
         self.replay_real = replay_real  # native replay leaves the real callee in place (inputs were concretized to agree with the model)
         self.effects = dict(effects or {})  # ghost updates performed by an abstract call: name -> clause
         self.yield_effect = yield_effect  # ghost updates at every `yield` of the function under verification: {name: clause over `event`}
@@ -348,6 +349,7 @@ class Registry:
         self.context_managers: dict[str, object] = {}
         self.opaque_super: dict[str, tuple] = {}
         self.spec_funcs: dict[str, object] = {}
+        self.nominal_methods: dict[str, dict] = {}  # external class qualname -> {method: python model(it, obj, args, kwargs)}
         self.aliases: dict[str, str] = {}  # clause-level name -> pure contract it denotes
 
     def contract(self, target, **kw):
@@ -403,3 +405,14 @@ def closure_of(outer_target, outer_args, pick=None):
         return res, {f"outer_{k}": v for k, v in made.items()}
 
     return setup
+
+
+_FRESH = [0]
+
+
+def fresh_opaque(it, sort, cls=None):
+    """A new, distinct opaque object (e.g. the result of queue.Queue(), uuid.uuid4())."""
+    import z3 as _z3
+    from .values import Opaque, ref_sort
+
+    return Opaque(sort, _z3.Const(it.path.fresh(f"new:{sort}"), ref_sort(sort)), cls or sort)
